@@ -262,6 +262,8 @@ func c20Run(r *vkit.Run) {
 	for k := range c20Keyword {
 		dict = append(dict, k)
 	}
+	// keys longer than any fixed-size scratch buffer: offending characters near the end, a leading digit, many dots
+	dict = append(dict, strings.Repeat("k", 60)+".io/name", "0"+strings.Repeat("9", 63), strings.Repeat("a.b/", 80), strings.Repeat("x", 300)+"."+strings.Repeat("y", 300), strings.Repeat("é", 40)+"z")
 	// the same words in other letter cases are ordinary names (label names are case-sensitive)
 	for _, k := range append([]string(nil), dict...) {
 		if up := strings.ToUpper(k); up != k && !strings.ContainsAny(k, "./ ") {
